@@ -28,14 +28,15 @@ func pathEstablishes(p core.Path, fact core.CondFact) bool {
 // errIsNilFact: the fact "v == nil" where v is the error result idx of a call satisfying pred.
 func errNilFact(idx int, pred func(ssa.Instruction) bool) core.CondFact {
 	return core.IsNilFact(func(v ssa.Value) bool {
+		// every source is that call's error: a variable that merges several errors ( err = f(); if err == nil { err = g() } ) says
+		// nothing about one of them by itself — Dominated looks at such a test once per incoming edge, with the merged value replaced
 		found := false
 		for _, s := range core.Sources(v) {
-			if core.IsNilConst(s) {
-				return false // the variable may have been reset to nil: testing it says nothing about the call
-			}
 			if core.CallResult(s, idx, pred) != nil {
 				found = true
+				continue
 			}
+			return false // nil constant (the variable may have been reset), or another call's error
 		}
 		return found
 	})
@@ -580,11 +581,25 @@ func copySeq(m *ssa.MakeSlice) ([]ssa.Value, bool) {
 
 // isLenOfPiece: v is len(x) for the value x (or for the array/string x is a slice or conversion of), or the constant length of x.
 func isLenOfPiece(v, x ssa.Value) bool {
+	// x = y[:v]
+	if sl, ok := core.StripConv(x).(*ssa.Slice); ok && sl.Low == nil && sl.High != nil && (sl.High == v || core.StripConv(sl.High) == core.StripConv(v)) {
+		return true
+	}
 	if call, ok := v.(*ssa.Call); ok {
 		if b, isB := call.Call.Value.(*ssa.Builtin); isB && b.Name() == "len" {
 			a := call.Call.Args[0]
 			if sameValue(a, x) || sameValue(core.StripConv(a), core.StripConv(x)) {
 				return true
+			}
+			// two loads of one field of one variable ( len(item.value) ... copy(dst, item.value) )
+			if ua, ok := core.StripConv(a).(*ssa.UnOp); ok {
+				if ux, ok := core.StripConv(x).(*ssa.UnOp); ok {
+					fa, okA := ua.X.(*ssa.FieldAddr)
+					fx, okX := ux.X.(*ssa.FieldAddr)
+					if okA && okX && fa.Field == fx.Field && (fa.X == fx.X || sameValue(fa.X, fx.X)) {
+						return true
+					}
+				}
 			}
 			if sl, ok := x.(*ssa.Slice); ok && sl.Low == nil && sl.High == nil {
 				// len(arr) for x = arr[:]
